@@ -11,6 +11,7 @@ import random
 import sys
 
 sys.path.insert(0, os.path.dirname(os.path.abspath(__file__)))
+import check_wiring
 import dfcheck
 import hg
 import programs as P
@@ -206,6 +207,7 @@ def check_c01(chk, rng):
     judge("C01", cases, verdicts, chk, ("C01.",), stream_is_mine=False)
     check_cyclic_wiring(chk, rng)
     check_dynamic_children(chk, rng)
+    check_wiring.run(chk, rng)
     for c in cases[:2]:
         chk.sample({"scenario": c.scn.splitlines(), "trace_events": len(c.events)})
     chk.coverage["rule"] = ("random DAG programs (fan-in, fan-out, diamonds) presented flat, with a sub-range nested / inlined / doubly "
@@ -931,6 +933,11 @@ def check_c15(chk, rng):
     judge("C15", cases, verdicts, chk, ("C15.",), stream_is_mine=True)
     nthrow = sum(len(c.pred["errs"]) for c in cases)
     chk.notes["exceptions_injected"] = nthrow
+    # "in a keyed map an error in one key's child is reported under that key only": mapped functions that throw on some of
+    # their inputs, per-key capture; every key's stream = the function run alone on that key, errors under their key, the
+    # error output never ticks with nothing to report
+    import check_ops
+    check_ops.check_c10(chk, rng, nscn=120 if chk.tier == "quick" else 1200, force_throw=True, with_models=False, tag="c15map")
     for c in cases[:3]:
         chk.sample({"scenario": c.scn.splitlines(), "specified_errors": c.pred["errs"], "specified_writes": c.pred["writes"][:12]})
     chk.coverage["rule"] = ("chains src -> pre* -> thrower -> post* with an independent branch; thrower captured per node, wrapped in try_except "
